@@ -359,7 +359,7 @@ def slice3d(chk, sc, cfgseed, plt=False):
         return val
     global LAST_KLASS
     LAST_KLASS = None
-    shifted = (not plt) and cfgseed % 5 == 2
+    shifted = cfgseed % 5 == 2
     if shifted:
         # the same hierarchy in an index space that does not start at 0 (physical coordinates unchanged).  The slicer used
         # to place boxes at their raw indices (known_findings.json, "mandoline/index-space-not-at-0", repaired): no class,
@@ -481,10 +481,16 @@ def sliceplt(chk, d, ds, ap, cfg_, sc, cfgseed, cn, cx, cy, base, before):
             if v:
                 break
             box = ap["levels"][l]["boxes"][0]
+            # (index spaces that do not start at 0: footprints are compared relative to the first cell of each file's OWN level
+            # domain -- the 2-D plotfile may keep the input's index space or start its own at 0, both are well-formed)
+            s0 = gamma.ishift(ap, l)
+            box = {"lo": [a - b for a, b in zip(box["lo"], s0)], "hi": [a - b for a, b in zip(box["hi"], s0)]}
             want_idx = [[box["lo"][cx], box["lo"][cy]], [box["hi"][cx], box["hi"][cy]]]
             C = A["lev"][l]
-            if C["idx"] != [want_idx]:
-                v = "level %d holds the footprints %r, the plane meets one box of that level with footprint %r" % (l, C["idx"], want_idx)
+            o0 = H["domains"][l][0] if l < len(H.get("domains", [])) else [0, 0]
+            got_idx = [[[a - b for a, b in zip(lo_, o0)], [a - b for a, b in zip(hi_, o0)]] for lo_, hi_ in C["idx"]]
+            if got_idx != [want_idx]:
+                v = "level %d holds the footprints %r (relative to the first cell of its domain), the plane meets one box of that level with footprint %r" % (l, got_idx, want_idx)
                 break
             for dd, ax in enumerate((cx, cy)):
                 if abs(H["dx"][l][dd] - dxs[l][ax]) > 1e-12 * abs(dxs[l][ax]):
